@@ -12,6 +12,8 @@ import (
 	"encoding/hex"
 	"encoding/json"
 	"fmt"
+	"github.com/storacha/go-ucanto/core/dag/blockstore"
+	"github.com/storacha/go-ucanto/core/receipt/fx"
 	"io"
 	"math/rand"
 	"os"
@@ -202,6 +204,13 @@ func c18Programs() []Program {
 		s.Alter = "none"
 		ps = append(ps, Program{Kind: "token", Token: &s})
 	}
+	// receipts with effects and proofs (repeated ones included), assembled the way the server does
+	for i := 0; i < 6; i++ {
+		s := RSpec{Key: []string{"ed0", "rsa0", "wrap2"}[i%3], OK: i%2 == 0, Value: tvInt(int64(40 + i)), RanKind: []string{"inv", "link"}[i%2], Alter: "none", Reader: "untyped", Effects: true,
+			Forks: [][]string{{"link"}, {"link", "link", "dup"}, {"link", "dup", "link", "dup"}}[i%3], Join: []string{"", "link"}[i%2],
+			Prfs: [][]string{nil, {"link", "dup"}}[i%2]}
+		ps = append(ps, Program{Kind: "receipt", Rcpt: &s})
+	}
 	return ps
 }
 
@@ -316,7 +325,44 @@ func runProgram(p Program) (Artifacts, error) {
 		} else {
 			res = result.Error[tvBuilder, tvBuilder](tvBuilder{s.Value})
 		}
-		rc, err := receipt.Issue(sg, res, rn)
+		var ropts []receipt.Option
+		if s.Effects {
+			var fos []fx.Option
+			var forks []fx.Effect
+			for i, f := range s.Forks {
+				if f == "dup" && len(forks) > 0 {
+					forks = append(forks, forks[len(forks)-1])
+				} else {
+					forks = append(forks, fx.FromLink(dummyLink(100+i)))
+				}
+			}
+			if len(forks) > 0 {
+				fos = append(fos, fx.WithFork(forks...))
+			}
+			if s.Join == "link" {
+				fos = append(fos, fx.WithJoin(fx.FromLink(dummyLink(200))))
+			}
+			eff := fx.NewEffects(fos...)
+			if len(eff.Fork()) > 0 {
+				ropts = append(ropts, receipt.WithFork(eff.Fork()...))
+			}
+			if eff.Join() != (fx.Effect{}) {
+				ropts = append(ropts, receipt.WithJoin(eff.Join()))
+			}
+			var prfs delegation.Proofs
+			for i, pk := range s.Prfs {
+				if pk == "dup" && len(prfs) > 0 {
+					prfs = append(prfs, prfs[len(prfs)-1])
+				} else {
+					prfs = append(prfs, delegation.FromLink(dummyLink(300+i)))
+				}
+			}
+			if len(prfs) > 0 {
+				ropts = append(ropts, receipt.WithProofs(prfs))
+			}
+			out["nforks"] = itoa(len(forks))
+		}
+		rc, err := receipt.Issue(sg, res, rn, ropts...)
 		if err != nil {
 			return nil, err
 		}
@@ -426,6 +472,17 @@ func readRecorded(p Program, rec Artifacts) []string {
 				sb, _ := sig.AsBytes()
 				sg, _ := pickSigner(p.Rcpt.Key)
 				chk(sg.Verifier().Verify(nodeBytes(ocm), signatureOf(sb)), "recorded receipt no longer verifies")
+			}
+		}
+		if nf, ok := rec["nforks"]; ok {
+			// the stored receipt, read through the library's receipt view: every effect it was issued with
+			rb := rawCborBlock(unhex("root"))
+			if br, err := blockstore.NewBlockReader(blockstore.WithBlocks([]ipld.Block{rb})); err == nil {
+				rc, err := receipt.NewReceipt[ipld.Node, ipld.Node](rb.Link(), br, anyUnionType())
+				chk(err == nil, "recorded receipt can no longer be read")
+				if err == nil {
+					chk(itoa(len(rc.Fx().Fork())) == nf, "a stored receipt reads back with another number of fork effects")
+				}
 			}
 		}
 	case "did":
